@@ -40,7 +40,7 @@ m = {
     }],
     "checks": checks,
     "not_applicable": na,
-    "notes": "See DESIGN.md. KNOWN_FINDINGS.json lists the genuine defects found: F1-F6 and F8 repaired by fix: commits in /repo (entries `fixed`), F7 (references yielded by iter_mut outlive the rebuilding guard; C01/C02/C08) recorded as an open known finding.",
+    "notes": "See DESIGN.md. KNOWN_FINDINGS.json lists the genuine defects found: F1-F6, F8 and F9 repaired by fix: commits in /repo (entries `fixed`), F7 (references yielded by iter_mut outlive the rebuilding guard; C01/C02/C08) recorded as an open known finding.",
 }
 json.dump(m, open(os.path.join(V, "MANIFEST.json"), "w"), indent=1)
 print("MANIFEST.json: %d checks, %d not applicable" % (len(checks), len(na)))
